@@ -158,7 +158,7 @@ func (r *Report) Finish() int {
 
 	violations, known, discharged, nontrivial := 0, 0, 0, 0
 	distinct := map[string]bool{}
-	vdir := "/verif/evidence/violations"
+	vdir := filepath.Join(evidenceDir(), "violations")
 	os.MkdirAll(vdir, 0o755)
 	old, _ := filepath.Glob(filepath.Join(vdir, r.Property+"-*.json"))
 	for _, f := range old {
@@ -241,9 +241,9 @@ func (r *Report) Finish() int {
 		"wall_s":      time.Since(r.Start).Seconds(),
 		"violations":  violations,
 	}
-	os.MkdirAll("/verif/evidence", 0o755)
+	os.MkdirAll(evidenceDir(), 0o755)
 	b, _ := json.MarshalIndent(ev, "", " ")
-	if err := os.WriteFile(filepath.Join("/verif/evidence", r.Property+".json"), b, 0o644); err != nil {
+	if err := os.WriteFile(filepath.Join(evidenceDir(), r.Property+".json"), b, 0o644); err != nil {
 		fmt.Fprintln(os.Stderr, "cannot write evidence:", err)
 		return 2
 	}
@@ -259,4 +259,14 @@ func seedFromEnv() int {
 	var n int
 	fmt.Sscanf(os.Getenv("VERIF_SEED"), "%d", &n)
 	return n
+}
+
+// evidenceDir is /verif/evidence; the self-test scripts (which run the checks on deliberately broken
+// trees) redirect it with UHLINT_EVIDENCE_DIR so that the committed evidence always stems from a run on
+// /repo as it is.
+func evidenceDir() string {
+	if d := os.Getenv("UHLINT_EVIDENCE_DIR"); d != "" {
+		return d
+	}
+	return "/verif/evidence"
 }
